@@ -4,5 +4,6 @@ package props
 import (
 	_ "verifharness/internal/props/c02"
 	_ "verifharness/internal/props/c03"
+	_ "verifharness/internal/props/c04"
 	_ "verifharness/internal/props/c05"
 )
